@@ -861,10 +861,54 @@ var suffixValues = [][]byte{{0xaa, 0xbb}, {0x00}, {0x01}, {0x7f}, {0x80, 0x01}, 
 
 // ---------------------------------------------------------------- the monitor
 
+// refusedEncode: a node also meets values it must refuse to encode (an amount, a source position or a
+// VM version above 2^63-1 cannot be written as a varint63).  The refusal itself is not the subject here;
+// the well-formed values encoded AFTER it are: an encoder's failure path must leave no trace (pooled
+// buffers, partial state) that changes later encodings.
+func refusedEncode(c *ev.Case, x *types.TxData) {
+	y := txgen.CloneTxData(x)
+	big := uint64(1)<<63 + c.Rand.Uint64()>>1
+	done := false
+	if len(y.Outputs) > 0 && c.Rand.Bool() {
+		y.Outputs[c.Rand.Intn(len(y.Outputs))].Amount = big
+		done = true
+	}
+	if !done {
+		for _, in := range y.Inputs {
+			switch t := in.TypedInput.(type) {
+			case *types.SpendInput:
+				if c.Rand.Bool() {
+					t.Amount = big
+				} else {
+					t.SourcePosition = big
+				}
+				done = true
+			case *types.VetoInput:
+				t.Amount = big
+				done = true
+			case *types.IssuanceInput:
+				t.Amount = big
+				done = true
+			}
+			if done {
+				break
+			}
+		}
+	}
+	if !done {
+		y.TimeRange = big
+	}
+	if _, err := y.MarshalText(); err != nil {
+		c.Count("refused_encodings", 1)
+	} else {
+		c.Count("out_of_range_value_encoded", 1)
+	}
+}
+
 func TestC04(t *testing.T) {
 	r := ev.Start(t, "C04")
 	defer r.Finish()
-	r.Rule("seeded well-formed values from verif/internal/txgen: transactions (0-8 inputs of spend/issuance/veto/coinbase, 0-8 outputs original/vote/retirement, 0-300 byte strings, every suffix field, nil and empty slices), headers (0-12 sparse supLinks), sealed blocks (0-6 transactions); plus every suffix field alone with 8 fixed suffix values. Each value goes through every encoding form. distinct = (value kind, input-type set, output-kind set, which suffix fields are non-empty, nil/empty class, size buckets) for transactions; (supLink count, signature-slot classes, witness class) for headers; (tx count, header class) for blocks")
+	r.Rule("seeded well-formed values from verif/internal/txgen: transactions (0-8 inputs of spend/issuance/veto/coinbase, 0-8 outputs original/vote/retirement, 0-300 byte strings, every suffix field, nil and empty slices), headers (0-12 sparse supLinks), sealed blocks (0-6 transactions); plus every suffix field alone with 8 fixed suffix values. Each value goes through every encoding form; one transaction / block in eight is preceded by an encoding the node must refuse (a field above 2^63-1). distinct = (value kind, input-type set, output-kind set, which suffix fields are non-empty, nil/empty class, size buckets) for transactions; (supLink count, signature-slot classes, witness class) for headers; (tx count, header class) for blocks")
 	r.Assume("equality is field-by-field with nil ≡ empty; SerializedSize is compared with the byte length, not with the generated value (generated values carry 0)")
 	r.Assume("P2P wrappers are exercised through wire.BinaryBytes/ReadBinary of the registered interface struct, exactly as the reactors' send path and decodeMessage do, without a running node")
 
@@ -882,6 +926,9 @@ func TestC04(t *testing.T) {
 	r.Cases("tx", r.N(12000, 600000), func(c *ev.Case) {
 		x := txgen.TxData(c.Rand)
 		countTxShape(c, x)
+		if c.Index%8 == 3 {
+			refusedEncode(c, x)
+		}
 		exact := checkTx(c, x)
 		c.Count("transactions", 1)
 		if exact {
@@ -911,6 +958,9 @@ func TestC04(t *testing.T) {
 
 	r.Cases("block", r.N(4000, 200000), func(c *ev.Case) {
 		x := txgen.Block(c.Rand)
+		if c.Index%8 == 5 && len(x.Transactions) > 0 {
+			refusedEncode(c, &x.Transactions[0].TxData)
+		}
 		exact := checkBlock(c, x)
 		c.Count("blocks", 1)
 		c.Count("block_transactions", int64(len(x.Transactions)))
@@ -945,6 +995,7 @@ func TestC04(t *testing.T) {
 		"tx_without_inputs", "tx_without_outputs"} {
 		r.Floor(f, 200)
 	}
+	r.Floor("refused_encodings", 500)
 	r.Floor("transactions_exact", 3000)
 	r.Floor("headers_exact", 3000)
 	r.Floor("blocks_exact", 500)
